@@ -40,7 +40,8 @@ def record(tr, cases, wd, want_kinds):
                 va = load.to_abstract(v.get("value")) if v.get("ok") else None
                 la = load.to_abstract(lib.get("value")) if lib.get("ok") else None
                 obs = {"validate": {"ok": bool(v.get("ok") and va is not None), "val": va or {"t": "none"},
-                                    "pos": [{"p": seg_path(x["from_path"]), "l": x["l"], "c": x["c"]} for x in v.get("positions", [])]},
+                                    "pos": [{"p": seg_path(x["from_path"]), "l": x["l"], "c": x["c"]} for x in v.get("positions", [])],
+                                    "spos": [{"p": seg_path(x["path"]), "l": x["l"], "c": x["c"], "rn": x["rn"]} for x in v.get("sarif", [])]},
                        "lib": {"ok": bool(lib.get("ok") and la is not None), "val": la or {"t": "none"}},
                        "test": {"ok": bool(t.get("ok")), "same": t.get("same", "?")}}
                 line = {"i": i, "kind": "doc", "fmt": c["fmt"], "lay": c["lay"], "doc": c["doc"], "txt": c["txt"], "obs": obs,
@@ -78,6 +79,20 @@ def record(tr, cases, wd, want_kinds):
                        "test": {"type": t.get("type", "error")}}
                 line = {"i": i, "kind": "scalar", "cp": c["cp"], "style": c["style"], "obs": obs, "text": text,
                         "raw": {"validate": str(v.get("error", ""))[:200], "lib": str(lib.get("error", ""))[:200], "test": str(t.get("error", ""))[:200]}}
+            elif c["kind"] == "escape":
+                text = '{"v": "' + load.cps_str(c["cp"]) + '"}\n'
+                v = load.validate_loader(wd, "escape.json", text, [])
+                lib = load.lib_loader(wd, text)
+
+                def ev(o):
+                    if o.get("ok") and isinstance(o.get("value"), dict) and "v" in o["value"]:
+                        a = load.to_abstract(o["value"]["v"])
+                        if a is not None:
+                            return a
+                    return {"t": "none"}
+                line = {"i": i, "kind": "escape", "cp": c["cp"], "text": text,
+                        "obs": {"validate": {"val": ev(v)}, "lib": {"val": ev(lib)}},
+                        "raw": {"validate": str(v.get("error", ""))[:200], "lib": str(lib.get("error", ""))[:200]}}
             elif c["kind"] == "tag":
                 tag = load.cps_str(c["tag"])
                 if c["form"] == "single":
@@ -126,7 +141,7 @@ def load_cases(res, tier, want_kinds, tag):
     return docs + rest
 
 
-def judge(res, tr, n, relations, key_of):
+def judge(res, tr, n, relations, key_of, skip=()):
     r = tlc("TraceLoad", env={"TRACE": tr}, workers=1, timeout=3000, tag="tload" + res.prop, heap="6g")
     if "TRACE-REJECTED" in r["out"] or not r["ok"]:
         log(r["out"][-3000:])
@@ -140,7 +155,7 @@ def judge(res, tr, n, relations, key_of):
     seen = {}
     for t in tlc_tuples(r["out"], "RELATE"):
         i, verdict, name = t[1], t[2], t[3]
-        if relations and name not in relations:
+        if (relations and name not in relations) or name in skip:
             continue
         seen[name] = seen.get(name, 0) + 1
         res.add("relations_checked")
@@ -159,6 +174,8 @@ def key_of(name, line):
         return "tag:%s:%s:%s" % (name, load.cps_str(line["tag"]), line["form"])
     if line["kind"] == "reject":
         return "reject:%s:%s" % (name, line["name"])
+    if line["kind"] == "escape":
+        return "escape:%s:%s" % (name, load.cps_str(line["cp"]))
     return "doc:%s:%s" % (name, line["fmt"])
 
 
@@ -169,9 +186,10 @@ def run(tier):
     cases = load_cases(res, tier, None, "11")
     wd = cli.Workdir("c11")
     tr = os.path.join(WORK, "trace_C11.ndjson")
-    n = record(tr, cases, wd, {"doc", "scalar", "tag", "reject"})
+    n = record(tr, cases, wd, {"doc", "scalar", "tag", "reject", "escape"})
     wd.close()
-    lines = judge(res, tr, n, None, key_of)
+    # positions belong to C10
+    lines = judge(res, tr, n, None, key_of, skip=("positions", "sarif-regions"))
     res.add("evaluations", n * 3)
     for i in (1, n // 2):
         if i in lines:
